@@ -205,6 +205,21 @@ def install_models(M):
     X['memchr'] = memchr
     def strchr(p, c):
         c = c8(c); i = 0
+        if is_sym(c):
+            # concrete haystack, symbolic needle: fork once on found / not found, symbolic position
+            hay = []
+            while True:
+                b = M.load_scalar(P(p, len(hay)), 'i', 8, 1)
+                if is_sym(b): hay = None; break
+                hay.append(b)
+                if b == 0: break
+                if len(hay) > 64: hay = None; break
+            if hay is not None:
+                found = z3.Or(*[c == b for b in hay])
+                if not M.branch(found): return NULL
+                idx = z3.BitVecVal(len(hay) - 1, 64)
+                for k in range(len(hay) - 2, -1, -1): idx = z3.If(c == hay[k], z3.BitVecVal(k, 64), idx)
+                return Ptr(p.obj, z3.simplify(p.off + idx))
         while True:
             b = M.load_scalar(P(p, i), 'i', 8, 1)
             if beq(b, c): return P(p, i)
@@ -232,8 +247,18 @@ def install_models(M):
     def memcmp(a, b, n):
         n = M.concretize(n, 'memcmp size')
         if n: M.access(a, n, 'memcmp read'); M.access(b, n, 'memcmp read')
-        for i in range(n):
-            x = M.load_scalar(P(a, i), 'i', 8, 1); y = M.load_scalar(P(b, i), 'i', 8, 1)
+        xs = [M.load_scalar(P(a, i), 'i', 8, 1) for i in range(n)]; ys = [M.load_scalar(P(b, i), 'i', 8, 1) for i in range(n)]
+        if n <= 64 and (any(is_sym(x) for x in xs) or any(is_sym(y) for y in ys)):
+            # one symbolic result instead of one fork per byte
+            r = z3.BitVecVal(0, 32)
+            for x, y in reversed(list(zip(xs, ys))):
+                if not is_sym(x) and not is_sym(y):
+                    if x != y: r = z3.BitVecVal(0xffffffff if x < y else 1, 32)
+                    continue
+                x = M.tosym(x, 8); y = M.tosym(y, 8)
+                r = z3.If(x == y, r, z3.If(z3.ULT(x, y), z3.BitVecVal(0xffffffff, 32), z3.BitVecVal(1, 32)))
+            return z3.simplify(r)
+        for x, y in zip(xs, ys):
             if M.branch(M.icmp('ne', ('int', 8), x, y)):
                 return 0xffffffff if M.branch(M.icmp('ult', ('int', 8), x, y)) else 1
         return 0
